@@ -39,6 +39,10 @@ func init() {
 
 const c19Alphabet = "OPSJabc"
 
+// c19Pause is the pause interval the statement names (two seconds), whatever
+// the code's own constant says.
+const c19Pause = 2 * time.Second
+
 var c19Advance = map[byte]time.Duration{'a': 100 * time.Millisecond, 'b': 1900 * time.Millisecond, 'c': 2100 * time.Millisecond}
 
 // termSession is one real Shell on the worker's controlling terminal.
@@ -148,8 +152,8 @@ func (m *c19Model) state(t time.Time) string {
 	if !m.inCycle {
 		return "unmuted"
 	}
-	lo := maxT(m.firstO, m.lastP).Add(opshell.PlainWritePause)
-	hi := maxT(m.lastO, m.lastP).Add(opshell.PlainWritePause)
+	lo := maxT(m.firstO, m.lastP).Add(c19Pause)
+	hi := maxT(m.lastO, m.lastP).Add(c19Pause)
 	switch {
 	case t.Before(lo):
 		return "muted"
@@ -506,6 +510,8 @@ func c19(r *ev.Result, tier string) {
 	r.Sample(4, map[string]string{"events": "OPbPaS", "meaning": "Ctrl+O, chunk (suppressed), +1.9 s, chunk (suppressed, re-arms), +0.1 s, status line (shown)"})
 	r.Sample(4, map[string]string{"events": "OcPSOO", "meaning": "Ctrl+O, +2.1 s (unmuting announced), chunk (shown), status, Ctrl+O (muting), Ctrl+O (already muted)"})
 	r.Assume("Ctrl+O is delivered by invoking the control-character callback the Shell registered with the terminal library (goxterm's key decoding is trusted)")
+	/* The real program in real time: Ctrl+O typed on the pty. */
+	c19RealBinary(r, base)
 	r.Assume("the model is three-valued: between 'pause since the first Ctrl+O of a cycle' and 'pause since the last one', and exactly on a 2.0 s boundary, either state is accepted")
 }
 
